@@ -31,14 +31,14 @@ CONTENTS = {
     "reshape-error": GOOD[:-1] + ["2 20 30"],
     "with-bom-free-nonascii": GOOD[:4] + ["COMP. café : c"] + GOOD[4:],
 }
-CALLS = ["read-str", "read-path", "read-noautodetect", "read-encoding", "write-path", "csv-path", "write-fileobj", "csv-fileobj"]
+CALLS = ["read-str", "read-path", "read-noautodetect", "read-encoding", "write-path", "csv-path", "write-fileobj", "csv-fileobj", "write-path-badversion", "csv-path-badoption", "csv-path-badoption2"]
 BOUNDS = {
     "quick": {"calls": CALLS, "contents": ["clean", "no-sections", "bad-header-line", "reshape-error"], "fault_kinds": ["OSError"], "task_budget_s": 600},
     "thorough": {"calls": CALLS, "contents": list(CONTENTS), "fault_kinds": ["OSError", "UnicodeDecodeError"], "task_budget_s": 1800},
 }
 ASSUMPTIONS = [
     "file system, open/io.open, os.path.getsize and chardet are stubs; a fault is an exception raised by the k-th operation (open, read, readline, iteration step, seek, tell, write) on any handle; close() itself never faults",
-    "file contents are the listed concrete texts; the fault index is symbolic and ranges over every operation of the run plus 'no fault'",
+    "file contents are the listed concrete texts; the fault index is symbolic and ranges over every operation of the run plus 'no fault'; write-side input-induced exceptions: an unsupported version, csv options the csv module rejects",
 ]
 WITNESS_TARGETS = ["fault-injected", "no-fault-run", "input-induced-exception"]
 EXCLUSIONS = {}
@@ -164,6 +164,12 @@ def _do_call(nsL, call, fs, las_for_write):
             las_for_write.write("out.las", version=2.0)
         elif call == "csv-path":
             las_for_write.to_csv("out.csv")
+        elif call == "write-path-badversion":
+            las_for_write.write("out.las", version=3.0)  # rejected by the writer (AssertionError)
+        elif call == "csv-path-badoption":
+            las_for_write.to_csv("out.csv", delimiter=";;")  # rejected by the csv module (TypeError)
+        elif call == "csv-path-badoption2":
+            las_for_write.to_csv("out.csv", no_such_option=1)
         elif call == "write-fileobj":
             supplied = OutFile(name="caller", fault=fs.fault)
             las_for_write.write(supplied, version=2.0)
